@@ -204,12 +204,12 @@ class Source:
 
 def locate(src, kind, name, lo=0, hi=None):
     """returns (si_start, si_keyword, si_open, si_close) in significant-token indices"""
-    kw = {'fn': 'fn', 'struct': 'struct', 'enum': 'enum', 'const': 'const', 'mod': 'mod'}[kind]
+    kw = {'fn': 'fn', 'struct': 'struct', 'enum': 'enum', 'const': 'const', 'mod': 'mod', 'static': 'static'}[kind]
     hits = list(src.find_seq([kw, name], lo, hi))
     # only items directly inside the enclosing scope (module / impl body), not nested deeper
     want = src.depth[lo] + 1 if lo else 0
     hits = [h for h in hits if src.depth[h] == want]
-    if kind == 'const':
+    if kind in ('const', 'static'):
         hits = [h for h in hits if src.tok(h + 2)[1] == ':']
     if len(hits) != 1:
         raise LostAnchor('%s %s: %d matches in %s' % (kind, name, len(hits), src.path))
@@ -218,7 +218,7 @@ def locate(src, kind, name, lo=0, hi=None):
     op = src.body_open(si)
     if src.tok(op)[1] == ';':
         return start, si, op, op
-    if kind == 'const':
+    if kind in ('const', 'static'):
         # const X: T = expr;  -- body_open may hit a `{` in expr; find terminating ';'
         k = si
         depth = 0
@@ -302,30 +302,77 @@ def split_format(fmt):
     return out
 
 
-def rule_R1(text, log, writer_names=('writer', 'w', 'f')):
-    """write!(w, "fmt", args..)  ->  sequence of w.vw_str(..)? calls.
-    Recognised holes: {ident} (a &str variable in scope) and {:04X} with one positional
-    u32 argument.  A trailing `?` after the macro is consumed; a bare `write!(..)` without
-    `?` is left as an expression `w.vw_str(..)` only when it has a single piece."""
-    pat = re.compile(r'\b(write|writeln)!\(\s*([A-Za-z_][A-Za-z0-9_]*)\s*,\s*"((?:[^"\\]|\\.)*)"\s*((?:,[^;]*?)?)\)(\?)?')
+HOLE_KINDS = {}   # per-unit: hole identifier -> 'str' | 'char' | 'fmt'   (set by extract_unit)
 
-    def repl(m):
-        macro, w, fmt, args, q = m.group(1), m.group(2), m.group(3), m.group(4), m.group(5)
+
+def rule_R1(text, log, writer_names=('writer', 'w', 'f')):
+    """write!(w, "fmt", args..)  ->  sequence of calls on the ghost writer.
+    Recognised holes: {ident} (by default a &str variable in scope; the unit description may
+    declare an identifier as `char` -> vw_char, or `fmt` -> ident.fmt(w), a nested Display
+    impl extracted in the same unit); {} with a positional &str expression; {:04X} with a
+    positional u32; {:0N} / {ident:0N} of an integer -> vw_dec(x as i128, N).
+    A trailing `?` is consumed; without `?` the calls become a block expression."""
+    def scan(text):
+        out = []
+        for m in re.finditer(r'\b(write|writeln)!\(', text):
+            i = m.end()
+            depth = 1
+            j = i
+            while j < len(text) and depth:
+                c = text[j]
+                if c == '"':
+                    j += 1
+                    while text[j] != '"':
+                        j += 2 if text[j] == '\\' else 1
+                elif c == "'" and j + 2 < len(text) and (text[j + 2] == "'" or text[j + 1] == '\\'):
+                    j = text.index("'", j + 1 + (1 if text[j + 1] == '\\' else 0))
+                elif c == '(':
+                    depth += 1
+                elif c == ')':
+                    depth -= 1
+                j += 1
+            inner = text[i:j - 1]
+            mm = re.match(r'\s*([A-Za-z_][A-Za-z0-9_]*)\s*,\s*"((?:[^"\\\\]|\\\\.)*)"\s*(.*)$', inner, re.S)
+            if not mm:
+                raise Unsupported('R1: cannot parse %s' % text[m.start():j][:80])
+            q = text[j] == '?' if j < len(text) else False
+            out.append((m.start(), j + (1 if q else 0), m.group(1), mm.group(1), mm.group(2), mm.group(3), q))
+        return out
+
+    def repl(macro, w, fmt, args, q, whole):
         pieces = split_format(fmt)
-        pos_args = [a.strip() for a in args.split(',')[1:]] if args else []
+        args = args.strip()
+        pos_args = split_clauses(args[1:]) if args.startswith(',') else []
         calls = []
         for kind, val in pieces:
             if kind == 'lit':
                 calls.append('%s.vw_str("%s")' % (w, val))
+                continue
+            name, _, spec = val.partition(':')
+            if name and not re.fullmatch(r'[A-Za-z_][A-Za-z0-9_]*', name):
+                raise Unsupported('R1: unsupported hole {%s}' % val)
+            if not name:
+                if not pos_args:
+                    raise Unsupported('R1: hole {%s} without argument' % val)
+                arg = pos_args.pop(0)
             else:
-                if re.fullmatch(r'[A-Za-z_][A-Za-z0-9_]*', val):
-                    calls.append('%s.vw_str(%s)' % (w, val))
-                elif val == ':04X':
-                    if not pos_args:
-                        raise Unsupported('R1: {:04X} without argument')
-                    calls.append('%s.vw_hex4(%s)' % (w, pos_args.pop(0)))
+                arg = name
+            if spec == '':
+                hk = HOLE_KINDS.get(name, 'str') if name else 'str'
+                if hk == 'str':
+                    calls.append('%s.vw_str(%s)' % (w, arg))
+                elif hk == 'char':
+                    calls.append('%s.vw_char(%s)' % (w, arg))
+                elif hk == 'fmt':
+                    calls.append('%s.fmt(%s)' % (arg, w))
                 else:
-                    raise Unsupported('R1: unsupported hole {%s}' % val)
+                    raise Unsupported('R1: unknown hole kind %r' % hk)
+            elif spec == '04X':
+                calls.append('%s.vw_hex4(%s)' % (w, arg))
+            elif re.fullmatch(r'0\d+', spec):
+                calls.append('%s.vw_dec(%s as i128, %d)' % (w, arg, int(spec)))
+            else:
+                raise Unsupported('R1: unsupported hole {%s}' % val)
         if pos_args:
             raise Unsupported('R1: unused positional arguments %r' % pos_args)
         if macro == 'writeln':
@@ -334,11 +381,50 @@ def rule_R1(text, log, writer_names=('writer', 'w', 'f')):
             calls = ['%s.vw_str("")' % w]
         if q:
             new = '?; '.join(calls) + '?'
-        else:
-            if len(calls) != 1:
-                raise Unsupported('R1: multi-piece write! without ?')
+        elif len(calls) == 1:
             new = calls[0]
-        log.append({'rule': 'R1', 'before': m.group(0), 'after': new})
+        else:
+            new = '{ ' + '?; '.join(calls[:-1]) + '?; ' + calls[-1] + ' }'
+        log.append({'rule': 'R1', 'before': whole, 'after': new})
+        return new
+    out = []
+    pos = 0
+    for (a, b, macro, w, fmt, args, q) in scan(text):
+        out.append(text[pos:a])
+        out.append(repl(macro, w, fmt, args, q, text[a:b]))
+        pos = b
+    out.append(text[pos:])
+    return ''.join(out)
+
+
+def rule_R1f(text, log):
+    """format!("{:0N}", x)  ->  vfmt_dec(x as i128, N)  (assumed: the zero-padded decimal String)"""
+    pat = re.compile(r'\bformat!\(\s*"\{:0(\d+)\}"\s*,\s*([^()]+?)\)')
+
+    def repl(m):
+        new = 'vfmt_dec(%s as i128, %s)' % (m.group(2).strip(), m.group(1))
+        log.append({'rule': 'R1f', 'before': m.group(0), 'after': new})
+        return new
+    return pat.sub(repl, text)
+
+
+def rule_R3f(text, log):
+    """`&mut fmt::Formatter<'_>` -> `&mut VWriter` (the ghost writer)"""
+    n = len(re.findall(r"&mut fmt::Formatter<'_>", text))
+    if n:
+        text = text.replace("&mut fmt::Formatter<'_>", '&mut VWriter')
+        log.append({'rule': 'R3f', 'before': "&mut fmt::Formatter<'_>", 'after': '&mut VWriter', 'count': n})
+    return text
+
+
+def rule_R8(text, log):
+    """X.trim_end_matches(c) -> str_trim_end_char(&X, c): the method is generic over the external
+    trait `Pattern`; the wrapper is external_body, its body is the same call"""
+    pat = re.compile(r'\b([A-Za-z_][A-Za-z0-9_]*)\.trim_end_matches\(([^()]*)\)')
+
+    def repl(m):
+        new = 'str_trim_end_char(&%s, %s)' % (m.group(1), m.group(2))
+        log.append({'rule': 'R8', 'before': m.group(0), 'after': new})
         return new
     return pat.sub(repl, text)
 
@@ -375,6 +461,38 @@ def rule_R7(text, log):
     def repl(m):
         new = 'chars_nth(%s, %s)' % (m.group(1), m.group(2))
         log.append({'rule': 'R7', 'before': m.group(0), 'after': new})
+        return new
+    return pat.sub(repl, text)
+
+
+def rule_R9(text, log):
+    """`static X: T = ..` -> `const X: T = ..` (Verus wants an `exec static` with an ensures clause;
+    a const differs from a static only in address identity, which the extracted code never uses)"""
+    pat = re.compile(r'(?m)^(\s*)static (\w+):')
+
+    def repl(m):
+        log.append({'rule': 'R9', 'before': 'static %s' % m.group(2), 'after': 'const %s' % m.group(2)})
+        return '%sconst %s:' % (m.group(1), m.group(2))
+    return pat.sub(repl, text)
+
+
+def rule_R10(text, log):
+    """closure parameter `_` -> `_e` (Verus: only variables are supported as closure parameters)"""
+    n = len(re.findall(r'\|_\|', text))
+    if n:
+        text = re.sub(r'\|_\|', '|_e|', text)
+        log.append({'rule': 'R10', 'before': '|_|', 'after': '|_e|', 'count': n})
+    return text
+
+
+def rule_R11(text, log):
+    """X.parse::<u32>() -> parse_u32(X): `str::parse` is generic over the external trait FromStr;
+    the wrapper is external_body, its body is the same call, its contract is assumed"""
+    pat = re.compile(r'\b([A-Za-z_][A-Za-z0-9_]*)\.parse::<u32>\(\)')
+
+    def repl(m):
+        new = 'parse_u32(%s)' % m.group(1)
+        log.append({'rule': 'R11', 'before': m.group(0), 'after': new})
         return new
     return pat.sub(repl, text)
 
@@ -426,7 +544,7 @@ def rule_R5(text, log):
     return text
 
 
-RULES = {'R1': rule_R1, 'R2': rule_R2, 'R2b': rule_R2b, 'R7': rule_R7, 'R3': rule_R3, 'R4': rule_R4, 'R5': rule_R5}
+RULES = {'R9': rule_R9, 'R10': rule_R10, 'R11': rule_R11, 'R1': rule_R1, 'R1f': rule_R1f, 'R3f': rule_R3f, 'R8': rule_R8, 'R2': rule_R2, 'R2b': rule_R2b, 'R7': rule_R7, 'R3': rule_R3, 'R4': rule_R4, 'R5': rule_R5}
 
 
 def strip_doc_comments(text):
@@ -633,6 +751,8 @@ def extract_unit(spec_path, repo, out_path, meta_path=None, canary=None):
     spec_dir = os.path.dirname(os.path.abspath(spec_path))
     contracts = parse_contract_file(os.path.join(spec_dir, spec['contracts']))
     rules = spec.get('rules', [])
+    HOLE_KINDS.clear()
+    HOLE_KINDS.update(spec.get('hole_kinds', {}))
     used_contract, used_loop, used_proof, used_attr, used_closure = set(), set(), set(), set(), set()
     log = []
     chunks = []     # (text, (file, line) or None)
@@ -710,7 +830,10 @@ def extract_unit(spec_path, repo, out_path, meta_path=None, canary=None):
         if 'within_mod' in item:
             _, _, mop, mcl = locate(src, 'mod', item['within_mod'])
             lo, hi = mop, mcl
-        if kind in ('struct', 'enum', 'const'):
+        if 'within_fn' in item and kind == 'static':
+            _, _, fo, fc = locate(src, 'fn', item['within_fn'], lo, hi)
+            lo, hi = fo, fc
+        if kind in ('struct', 'enum', 'const', 'static'):
             s_start, _, _, s_close = locate(src, kind, item['name'], lo, hi)
             a = src.tok(s_start)[2]
             b = src.tok(s_close)[3]
@@ -807,7 +930,11 @@ def extract_unit(spec_path, repo, out_path, meta_path=None, canary=None):
     head = '// GENERATED by tools/extract.py from %s -- do not edit\n' % spec_path
     head += contracts['header']
     head += 'verus! {\n'
-    pre = [(head, None), (contracts['prelude'], None)]
+    shared = ''
+    for pf in spec.get('prelude_files', []):
+        with open(os.path.join(spec_dir, pf)) as fh:
+            shared += fh.read() + '\n'
+    pre = [(head, None), (shared, None), (contracts['prelude'], None)]
     post = [(contracts['postlude'], None), ('\n} // verus!\n', None),
             (contracts['main'] if contracts['main'].strip() else 'fn main() {}\n', None)]
     allchunks = pre + chunks + post
